@@ -1,4 +1,5 @@
 import Emboss.Model.Pipeline
+import Emboss.Model.PipelineDriver
 import Driver.Util
 open Emboss.Pipeline Driver
 
@@ -23,6 +24,17 @@ Line protocol of `model_c16` (one op per line, one answer line):
                                                  → ir <names run> | errors <groups as ids> | crash <name>
   QUEUE <fuel> <root> <node>|<node>…             node ::= name ">" imports(comma) | name "!" ; "@" is the empty name
                                                  → done <files> | errors <file> parsed=<files> | fuel
+  FINDREAD <dir>=<probe>|…  (or "-")             probe ::= "t:" text | "o:" text | "u:" text | "x:" text(exception name)
+                                                 → found <text> | notfound <text>|<text>… | raised <name>
+  READERR <color 0/1> <file> <detail>|…  (or "-") → ok <text>   (the unreadable-file group rendered without sources)
+  PATH <a> <b>                                   → join <text> dirname <text>
+  EMBOSSC <color> <front> <back> <output-path|none> <output-file|none> <input> <mk 0/1><wr 0/1>
+                                                 front ::= "E" groups | "I" sources ; back ::= "H" text | "E" groups
+                                                 → exit <code> <stderr> <path|none> <content|none> | raised <name>
+  FRONTEND <color> <front> <output-file|none> <wr 0/1>      (serialised IR is the text "J")
+  CODEGEN <color> <sources> <back> <output-file|none> <wr 0/1>
+  TOKLOC <ln> <off> <len>                        → loc
+  MERGE <loc>/<loc>…                             → loc <loc> | none | assert
 -/
 
 def parseText (s : String) : Option Text :=
@@ -125,6 +137,48 @@ def parseNode (s : String) : Option (String × Parsed) :=
                         imports := if imps.isEmpty then [] else (imps.splitOn ",").map nameOf })
     | _ => none
 
+def parseProbe (s : String) : Option (Text × Probe) :=
+  match s.splitOn "=" with
+  | [d, p] => do
+    let d ← parseText d
+    match p.splitOn ":" with
+    | [k, t] => do
+      let t ← parseText t
+      if k == "t" then pure (d, .text t)
+      else if k == "o" then pure (d, .osError t)
+      else if k == "u" then pure (d, .unicodeError t)
+      else if k == "x" then pure (d, .otherError (String.ofList t))
+      else none
+    | _ => none
+  | _ => none
+
+def parseOptText (s : String) : Option (Option Text) :=
+  if s == "none" then some none else (parseText s).map some
+
+def parseFront (s : String) : Option (FrontResult Unit) :=
+  if s.startsWith "E" then (parseGroups (s.drop 1).toString).map .errors
+  else if s.startsWith "I" then (parseSources (s.drop 1).toString).map (.ir ())
+  else none
+
+def parseBack (s : String) : Option (Text × Errors) :=
+  if s.startsWith "H" then (parseText (s.drop 1).toString).map fun t => (t, [])
+  else if s.startsWith "E" then (parseGroups (s.drop 1).toString).map fun g => ([], g)
+  else none
+
+def parseFs (s : String) : Option OutFs :=
+  match s.toList with
+  | [a, b] => do
+    let a ← parseBool01 (String.singleton a)
+    let b ← parseBool01 (String.singleton b)
+    pure ⟨fun _ => a, fun _ => b⟩
+  | _ => none
+
+def showRun : RunResult → String
+  | .exit code err w =>
+    s!"exit {code} " ++ showText err ++ " " ++
+      (match w with | some (p, c) => showText p ++ " " ++ showText c | none => "none none")
+  | .raised n => "raised " ++ n
+
 def handle (line : String) : String :=
   match line.splitOn " " with
   | [op, col, srcs, gs] =>
@@ -162,6 +216,17 @@ def handle (line : String) : String :=
         | .errors _ f before => "errors " ++ showName f ++ " parsed=" ++ showNames before
         | .outOfFuel => "fuel"
       | _, _ => "bad-op"
+    else if op == "READERR" then
+      match parseBool01 col, parseText srcs, (if gs == "-" then some [] else (gs.splitOn "|").mapM parseText) with
+      | some col, some f, some ds =>
+        match formatErrors [unreadableGroup (String.ofList f) ds] [] col with
+        | .ok t => "ok " ++ showText t
+        | .error c => "crash " ++ showCrash c
+      | _, _, _ => "bad-op"
+    else if op == "TOKLOC" then
+      match col.toNat?, srcs.toNat?, gs.toNat? with
+      | some a, some b, some c => showLoc (tokLoc a b c)
+      | _, _, _ => "bad-op"
     else "bad-op"
   | ["SPLITLINES", t] =>
     match parseText t with
@@ -189,6 +254,41 @@ def handle (line : String) : String :=
       | .errors es => "errors " ++ showGroupIds es
       | .crash c => "crash " ++ showCrash c
       | .outOfFuel => "fuel"
+    | none => "bad-op"
+  | ["FINDREAD", ps] =>
+    match (if ps == "-" then some [] else (ps.splitOn "|").mapM parseProbe) with
+    | some probes =>
+      match findAndRead probes with
+      | .found t => "found " ++ showText t
+      | .notFound es => "notfound " ++ "|".intercalate (es.map showText)
+      | .raised n => "raised " ++ n
+    | none => "bad-op"
+  | ["PATH", a, b] =>
+    match parseText a, parseText b with
+    | some a, some b => "join " ++ showText (pathJoin a b) ++ " dirname " ++ showText (dirname (pathJoin a b))
+    | _, _ => "bad-op"
+  | ["EMBOSSC", col, fr, bk, op, ofile, inp, fsx] =>
+    match parseBool01 col, parseFront fr, parseBack bk, parseOptText op, parseOptText ofile, parseText inp,
+          parseFs fsx with
+    | some col, some fr, some bk, some op, some ofile, some inp, some fs =>
+      showRun (embosscMain fr (fun _ => bk) col op ofile inp fs)
+    | _, _, _, _, _, _, _ => "bad-op"
+  | ["FRONTEND", col, fr, ofile, fsx] =>
+    match parseBool01 col, parseFront fr, parseOptText ofile, parseFs ("1" ++ fsx) with
+    | some col, some fr, some ofile, some fs => showRun (frontEndMain fr (fun _ => ['J']) col ofile fs)
+    | _, _, _, _ => "bad-op"
+  | ["CODEGEN", col, srcs, bk, ofile, fsx] =>
+    match parseBool01 col, parseSources srcs, parseBack bk, parseOptText ofile, parseFs ("1" ++ fsx) with
+    | some col, some srcs, some bk, some ofile, some fs =>
+      showRun (codegenMain () srcs (fun _ => bk) col ofile fs)
+    | _, _, _, _, _ => "bad-op"
+  | ["MERGE", ls] =>
+    match (ls.splitOn "/").mapM (fun x => parseLocFields (x.splitOn ",")) with
+    | some ls =>
+      match mergeLocs ls with
+      | .ok (some l) => "loc " ++ showLoc l
+      | .ok none => "none"
+      | .error _ => "assert"
     | none => "bad-op"
   | _ => "bad-op"
 
